@@ -17,11 +17,94 @@ Label vectors use arbitrary (non-contiguous, unordered) labels; for kind 'int' t
 import os, tempfile, inspect
 import numpy as np
 
-N = 6
+N = 6            # default number of nodes; `sized(n)` changes it for the size axis
+DENS = None      # density override used by `sized`
+
+
+class sized:
+    """with sized(n): every builder produces n-node inputs (density lowered for large n so that costs stay bounded)"""
+    def __init__(self, n):
+        self.n = n
+
+    def __enter__(self):
+        global N, DENS
+        self.old = (N, DENS)
+        N, DENS = self.n, (None if self.n <= 12 else max(0.08, min(0.6, 10.0 / self.n)))
+
+    def __exit__(self, *a):
+        global N, DENS
+        N, DENS = self.old
+
 KINDS = ('und', 'bin', 'dir', 'wdiag', 'signed', 'int', 'bool', 'booldiag', 'disc', 'naninf')
 
 
-def mat(kind, rs, n=N, dens=0.6):
+SPECIAL_KINDS = ('empty', 'emptyint', 'emptybool', 'single', 'negzero', 'stoch', 'f32')
+
+
+def special_mat(kind, rs, n):
+    """empty / emptyint / emptybool: all-zero (edgeless) matrix; single: one node; negzero: binary float whose zeros are -0.0
+    (max exactly 1.0); stoch: dyadic row-stochastic float matrix (every row sums to exactly 1.0); f32: float32 weights"""
+    if kind == 'empty':
+        return np.zeros((n, n))
+    if kind == 'emptyint':
+        return np.zeros((n, n), dtype=np.int64)
+    if kind == 'emptybool':
+        return np.zeros((n, n), dtype=bool)
+    if kind == 'single':
+        return np.zeros((1, 1))
+    if kind == 'negzero':
+        A = mat('bin', rs, n)
+        A[A == 0] = -0.0
+        return A
+    if kind == 'stoch':
+        A = np.zeros((n, n))
+        for i in range(n):
+            js = [(i + 1) % n, (i + 2) % n, (i + 3) % n] if n > 3 else [(i + 1) % n]
+            for j, w in zip(js, (0.5, 0.25, 0.25) if len(js) == 3 else (1.0,)):
+                A[i, j] += w
+        return A
+    if kind == 'f32':
+        return mat('und', rs, n).astype(np.float32)
+    raise KeyError(kind)
+
+
+def prob_vector(kind, n):
+    """weight-like vector arguments (falff, wts, C0): dyadic probabilities whose float sum is exactly 1.0, one-hot, in several dtypes"""
+    v = np.zeros(n)
+    if kind in ('stoch', 'und', 'negzero', 'wdiag'):
+        w = [0.5, 0.25, 0.125, 0.125]
+        v[:min(n, 4)] = w[:min(n, 4)]
+        if n < 4:
+            v[n - 1] += 1.0 - v.sum()
+        return v
+    if kind in ('bin', 'empty', 'single'):
+        v[0] = 1.0
+        return v
+    if kind in ('int', 'emptyint'):
+        v = np.zeros(n, dtype=np.int64)
+        v[0] = 1
+        return v
+    if kind in ('bool', 'booldiag', 'emptybool'):
+        v = np.zeros(n, dtype=bool)
+        v[0] = True
+        return v
+    if kind == 'f32':
+        p2 = 1 << (n.bit_length() - 1)
+        v = np.zeros(n, dtype=np.float32)
+        v[:p2] = np.float32(1.0 / p2)
+        return v
+    if kind == 'signed':
+        p2 = 1 << (n.bit_length() - 1)
+        v[:p2] = 1.0 / p2             # uniform over a power of two: sum exactly 1.0
+        return v
+    return None
+
+
+def mat(kind, rs, n=None, dens=None):
+    n = N if n is None else n
+    dens = (DENS or 0.6) if dens is None else (dens if DENS is None else min(dens, DENS * 1.5))
+    if kind in SPECIAL_KINDS:
+        return special_mat(kind, rs, n)
     mask = rs.rand(n, n) < dens
     w = np.floor(rs.rand(n, n) * 9) + 1.0
     if kind == 'naninf':
@@ -74,18 +157,27 @@ def mat(kind, rs, n=N, dens=0.6):
     return A
 
 
-def labels(kind, rs, n=N):
+def labels(kind, rs, n=None):
+    n = N if n is None else n
+    if kind == 'single':
+        return np.array([7.0])
     pool = np.array([7, 3, 12, 5])
     ci = pool[np.sort(rs.randint(0, 3, size=n))]
-    ci[0], ci[-1] = pool[0], pool[1]
+    if n > 1:
+        ci[0], ci[-1] = pool[0], pool[1]
     rs.shuffle(ci)
-    ci = ci.astype(np.int64) if kind in ('int', 'bin', 'dir', 'bool', 'booldiag') else ci.astype(float)
+    ci = ci.astype(np.int64) if kind in ('int', 'bin', 'dir', 'bool', 'booldiag', 'emptyint', 'emptybool') else ci.astype(np.float32 if kind == 'f32' else float)
     if kind == 'naninf':
         ci[1] = np.nan
     return ci
 
 
-def distmat(kind, rs, n=N):
+def distmat(kind, rs, n=None):
+    n = N if n is None else n
+    if kind in ('single',):
+        return np.zeros((1, 1))
+    if kind == 'stoch':
+        return special_mat('stoch', rs, n)
     xyz = rs.rand(n, 3) * 10
     D = np.sqrt(((xyz[:, None, :] - xyz[None, :, :]) ** 2).sum(-1))
     D = np.round(D * 4) / 4 + (1 - np.eye(n)) * 0.25
@@ -168,25 +260,32 @@ def _override(name, kind, rs):
         return {'c': labels(kind, rs)}
     if name == 'get_rng':
         return {'seed': 5}
+    big = N > 12          # size axis
     if name == 'pick_four_unique_nodes_quickly':
-        return {'n': 7}
+        return {'n': N if big else 7}
     if name in ('makerandCIJ_dir', 'makerandCIJ_und'):
-        return {'n': 7, 'k': 9}
+        return {'n': N, 'k': 3 * N} if big else {'n': 7, 'k': 9}
     if name == 'makeringlatticeCIJ':
-        return {'n': 7, 'k': 10}          # 14 band cells > k: the excess is removed at random
+        return {'n': N, 'k': 4 * N - 3} if big else {'n': 7, 'k': 10}          # band cells > k: the excess is removed at random
     if name == 'maketoeplitzCIJ':
         return {'n': 8, 'k': 20, 's': 3.0}
     if name == 'makeevenCIJ':
+        if big:
+            p2 = 1 << (N.bit_length() - 1)
+            return {'n': p2, 'k': 4 * p2, 'sz_cl': 2}
         return {'n': 8, 'k': 30, 'sz_cl': 2}      # 24 cluster cells < k: the rest is placed at random
     if name == 'makefractalCIJ':
-        return {'mx_lvl': 3, 'E': 2.0, 'sz_cl': 2}
+        return {'mx_lvl': min(8, N.bit_length() - 1) if big else 3, 'E': 2.0, 'sz_cl': 2}
     if name == 'makerandCIJdegreesfixed':
+        if big:
+            return {'inv': np.full(N, 2), 'outv': np.full(N, 2)}
         return {'inv': np.array([1, 2, 1, 2, 1, 1]), 'outv': np.array([2, 1, 2, 1, 1, 1])}
     if name == 'make_motif34lib':
         return None          # writes motif34lib.mat into the package directory
     if name == 'nbs_bct':
-        x = rs.rand(5, 5, 6)
-        y = rs.rand(5, 5, 6) + 0.8
+        m = min(N, 40) if big else 5
+        x = rs.rand(m, m, 6)
+        y = rs.rand(m, m, 6) + 0.8
         return {'x': x + x.transpose(1, 0, 2), 'y': y + y.transpose(1, 0, 2), 'thresh': 1.5, 'k': 6}
     if name == 'navigation_wu':
         return {'L': mat(kind, rs), 'D': distmat(kind, rs), 'max_hops': 5}
@@ -195,7 +294,8 @@ def _override(name, kind, rs):
     if name == 'randomizer_bin_und':
         return {'R': mat(kind, rs, dens=0.4), 'alpha': 0.5}
     if name == 'rentian_scaling':
-        return {'A': mat(kind, rs, n=8), 'xyz': rs.rand(8, 3) * 10, 'n': 6}
+        m = N if big else 8
+        return {'A': mat(kind, rs, n=m), 'xyz': rs.rand(m, 3) * 10, 'n': 6}
     if name == 'retrieve_shortest_path':
         hops = np.ones((n, n)) * 2
         np.fill_diagonal(hops, 0)
@@ -204,7 +304,11 @@ def _override(name, kind, rs):
     if name == 'resource_efficiency_bin':
         return {'adj': mat(kind, rs), 'lamb': 0.5}
     if name == 'pagerank_centrality':
-        return {'A': mat(kind, rs), 'd': 0.85}
+        a = {'A': mat(kind, rs), 'd': 0.85}
+        fv = prob_vector(kind, len(a['A']))
+        if fv is not None:
+            a['falff'] = fv         # initial probabilities, float sum exactly 1.0 / one-hot / int / bool / float32
+        return a
     if name == 'writetoPAJ':
         return {'CIJ': mat(kind, rs), 'fname': os.path.join(tempfile.gettempdir(), 'verif_paj_%d.net' % os.getpid()), 'directed': True}
     if name == 'generate_fc':
@@ -212,16 +316,20 @@ def _override(name, kind, rs):
                 'pred_var': ('ed', 'SPLwei_log', 'SIwei_log'), 'model': 'linear'}
     if name == 'generative_model':
         mt = {'und': 'matching', 'bin': 'neighbors', 'dir': 'clu-avg', 'wdiag': 'deg-avg', 'signed': 'euclidean', 'int': 'matching'}.get(kind, 'matching')
-        A = np.zeros((8, 8))
+        m = min(N, 33) if big else 8
+        A = np.zeros((m, m))
         A[0, 1] = A[1, 0] = A[2, 3] = A[3, 2] = 1
         if kind == 'int':
             A = A.astype(np.int64)
-        return {'A': A, 'D': distmat('und', rs, n=8), 'm': 7, 'eta': np.array([-2.0]), 'gamma': np.array([0.5]), 'model_type': mt}
+        # several (eta, gamma) pairs in one call for some flavours: every pair must continue the one seeded stream
+        eta, gam = (np.array([-2.0, -1.0, -3.0]), np.array([0.5, 0.3, 0.4])) if kind in ('bin', 'dir', 'wdiag', 'signed') else (np.array([-2.0]), np.array([0.5]))
+        return {'A': A, 'D': distmat('und', rs, n=m), 'm': m - 1, 'eta': eta, 'gamma': gam, 'model_type': mt}
     if name == 'evaluate_generative_model':
         A = np.zeros((8, 8))
         A[0, 1] = A[1, 0] = A[2, 3] = A[3, 2] = 1
-        return {'A': A, 'Atgt': mat('bin', rs, n=8, dens=0.3), 'D': distmat('und', rs, n=8), 'eta': np.array([-2.0]),
-                'gamma': np.array([0.5]), 'model_type': 'matching'}
+        eta, gam = (np.array([-2.0, -1.0]), np.array([0.5, 0.3])) if kind in ('bin', 'dir') else (np.array([-2.0]), np.array([0.5]))
+        return {'A': A, 'Atgt': mat('bin', rs, n=8, dens=0.3), 'D': distmat('und', rs, n=8), 'eta': eta,
+                'gamma': gam, 'model_type': 'matching'}
     if name == 'consensus_und':
         D = rs.rand(n, n)
         D = (D + D.T) / 2
@@ -262,7 +370,13 @@ def _override(name, kind, rs):
     return 'generic'
 
 
-def build(name, func, kind, rs, flags=None):
+def build(name, func, kind, rs, flags=None, n=None):
+    """n: size axis (number of nodes); kind 'single' is the one-node network"""
+    if kind == 'single' and n is None:
+        n = 1
+    if n is not None and n != N:
+        with sized(n):
+            return build(name, func, kind, rs, flags, None)
     o = _override(name, kind, rs)
     if o is None:
         return None
